@@ -209,6 +209,13 @@ def oracle(script: dict, run: Any) -> List[Violation]:
     specs = all_specs(script)
     end = script["start"]["epoch_us"] + script["horizon_us"]
     cancelled = {c for src in script["sources"] for c in src.get("cancel", [])}
+    # schedules created through task.kicker().schedule_by_time / schedule_by_cron must be handed to the source (once, under the
+    # requested schedule id) - otherwise there is nothing for the scheduler to send
+    for e in h.kind("op_create"):
+        if e[4].get("in_source") != 1 or e[4].get("got_id") != e[4]["id"]:
+            out.append(Violation("C16/created-schedule-not-in-source", f"schedule {e[4]['id']} created through the kicker: the source holds {e[4].get('in_source')} "
+                                 f"entries with that id afterwards (CreatedSchedule id {e[4].get('got_id')})", sid=e[4]["id"]))
+            return out
     state: Dict[Any, Dict[str, int]] = {}
     for e in run.events:
         kind = e[3]
